@@ -26,6 +26,10 @@ import (
 
 // callees whose error result may be ignored, with the reason.
 var e1Exempt = map[string]string{
+	"(*strings.Builder).WriteString": "documented to always return a nil error",
+	"(*strings.Builder).WriteByte":   "documented to always return a nil error",
+	"(*strings.Builder).WriteRune":   "documented to always return a nil error",
+	"(*strings.Builder).Write":       "documented to always return a nil error",
 	"(*bytes.Buffer).WriteString": "documented to always return a nil error",
 	"(*bytes.Buffer).WriteByte":   "documented to always return a nil error",
 	"(*bytes.Buffer).WriteRune":   "documented to always return a nil error",
